@@ -57,6 +57,7 @@ type c15Op struct {
 
 type c15Script struct {
 	Store  string           `json:"store"` // inmem | codec
+	Probe  []string         `json:"probe"` // order of the first request kinds sent after the failover
 	Topics map[string]int32 `json:"topics"`
 	Ops    []c15Op          `json:"ops"`
 }
@@ -296,7 +297,7 @@ func c15FetchOffset(ctx context.Context, c *GroupCoordinator, topic string, part
 	return fmt.Sprintf("code=%d off=%d", p.ErrorCode, p.Offset)
 }
 
-func c15Describe(ctx context.Context, c *GroupCoordinator) string {
+func c15Describe(ctx context.Context, c *GroupCoordinator, rename func(string) string) string {
 	req := kmsg.NewPtrDescribeGroupsRequest()
 	req.Groups = []string{c15Group}
 	resp, err := c.DescribeGroups(ctx, req)
@@ -306,7 +307,7 @@ func c15Describe(ctx context.Context, c *GroupCoordinator) string {
 	g := resp.Groups[0]
 	var ids []string
 	for _, m := range g.Members {
-		ids = append(ids, m.MemberID)
+		ids = append(ids, rename(m.MemberID))
 	}
 	sort.Strings(ids)
 	lreq := kmsg.NewPtrListGroupsRequest()
@@ -497,94 +498,172 @@ func c15Run(sc c15Script) c15Outcome {
 		}
 	}
 	sides := []*GroupCoordinator{a, b}
+	// ids handed to a brand-new consumer after the failover differ between A and B (random);
+	// they are compared up to renaming
+	newID := map[*GroupCoordinator]string{}
+	idsDiverged := false
+	ren := func(c *GroupCoordinator) func(string) string {
+		return func(id string) string {
+			if n := newID[c]; n != "" && id == n {
+				return "<new-member>"
+			}
+			return id
+		}
+	}
+	where := func() string {
+		return fmt.Sprintf("after failover (store=%s persisted state=%s gen=%d leader=%q members=%d, probe order %v)", sc.Store, out.failState, curGen, leader, out.failMembers, sc.Probe)
+	}
 	cmp := func(what string, f func(c *GroupCoordinator) string) bool {
 		ra, rb := f(sides[0]), f(sides[1])
 		if ra != rb {
-			out.violation = fmt.Sprintf("after failover (persisted state=%s gen=%d leader=%q members=%d): %s\n  old coordinator A: %s\n  new coordinator B: %s", out.failState, curGen, leader, out.failMembers, what, ra, rb)
+			out.violation = fmt.Sprintf("%s: %s\n  old coordinator A: %s\n  new coordinator B: %s", where(), what, ra, rb)
 			return false
 		}
 		return true
 	}
-	if !cmp("DescribeGroups/ListGroups", func(c *GroupCoordinator) string { return c15Describe(ctx, c) }) {
+	describe := func(what string) bool {
+		return cmp(what, func(c *GroupCoordinator) string { return c15Describe(ctx, c, ren(c)) })
+	}
+	renderJoin := func(c *GroupCoordinator, r *kmsg.JoinGroupResponse, full bool) string {
+		rn := ren(c)
+		s := fmt.Sprintf("gen=%d leader=%q member=%q", r.Generation, rn(r.LeaderID), rn(r.MemberID))
+		if full {
+			var rows []string
+			for _, jm := range r.Members {
+				subs, ok := c15DecodeSubs(jm.ProtocolMetadata)
+				sort.Strings(subs)
+				rows = append(rows, fmt.Sprintf("%s%v%v", rn(jm.MemberID), subs, ok))
+			}
+			sort.Strings(rows)
+			s += fmt.Sprintf(" code=%d members=%v", r.ErrorCode, rows)
+		}
+		return s
+	}
+	// compareJoin returns (continue, stop): while the group is preparing a rebalance the set of
+	// members that already rejoined is not part of the statement (it is not persisted), so
+	// there only generation/leader/member id are compared and B may complete the rebalance
+	// earlier than A; once that happened the comparison stops.
+	compareJoin := func(what string, ra, rb *kmsg.JoinGroupResponse) bool {
+		if ra.ErrorCode == protocol.REBALANCE_IN_PROGRESS && rb.ErrorCode == protocol.NONE {
+			out.classes = append(out.classes, "stat:rejoin-progress-not-persisted(B completes rebalance earlier)")
+			if renderJoin(a, ra, false) != renderJoin(b, rb, false) {
+				out.violation = fmt.Sprintf("%s: %s\n  A: %s\n  B: %s", where(), what, renderJoin(a, ra, false), renderJoin(b, rb, false))
+			}
+			return false
+		}
+		if renderJoin(a, ra, true) != renderJoin(b, rb, true) {
+			out.violation = fmt.Sprintf("%s: %s\n  A: %s\n  B: %s", where(), what, renderJoin(a, ra, true), renderJoin(b, rb, true))
+			return false
+		}
+		return true
+	}
+	phase := func(kind string) bool {
+		switch kind {
+		case "heartbeat":
+			for _, m := range ms {
+				m := m
+				if !cmp(fmt.Sprintf("Heartbeat(member=%s gen=%d)", m.id, curGen), func(c *GroupCoordinator) string {
+					return fmt.Sprintf("code=%d", c15Heartbeat(ctx, c, m.id, curGen))
+				}) {
+					return false
+				}
+			}
+		case "sync":
+			for _, m := range ms {
+				m := m
+				if !cmp(fmt.Sprintf("SyncGroup(member=%s gen=%d)", m.id, curGen), func(c *GroupCoordinator) string {
+					code, asg := c15Sync(ctx, c, m.id, curGen)
+					if idsDiverged {
+						// a new member with a side-specific random id may take part in the
+						// round-robin: only the outcome class is comparable
+						return fmt.Sprintf("code=%d", code)
+					}
+					return fmt.Sprintf("code=%d assignment=[%s]", code, asg)
+				}) {
+					return false
+				}
+			}
+		case "commit":
+			for i, m := range ms {
+				m, i := m, i
+				if !cmp(fmt.Sprintf("OffsetCommit(member=%s gen=%d)+OffsetFetch", m.id, curGen), func(c *GroupCoordinator) string {
+					code := c15Commit(ctx, c, m.id, curGen, firstTopic, 0, int64(100+i))
+					return fmt.Sprintf("code=%d then %s", code, c15FetchOffset(ctx, c, firstTopic, 0))
+				}) {
+					return false
+				}
+			}
+		case "newjoin":
+			// a brand-new consumer (empty member id) joins through both coordinators
+			subs := []string{firstTopic}
+			ra := c15Join(ctx, a, "", subs, 30000, 30000)
+			rb := c15Join(ctx, b, "", subs, 30000, 30000)
+			for side, r := range []*kmsg.JoinGroupResponse{ra, rb} {
+				if r.ErrorCode != protocol.NONE && r.ErrorCode != protocol.REBALANCE_IN_PROGRESS {
+					continue
+				}
+				for _, m := range ms {
+					if r.MemberID == m.id {
+						out.violation = fmt.Sprintf("%s: a new consumer joining with an empty member id through coordinator %c was handed the id %q of an existing member", where(), "AB"[side], r.MemberID)
+						return false
+					}
+				}
+				if r.MemberID == "" {
+					out.violation = fmt.Sprintf("%s: JoinGroup with empty member id through coordinator %c answered code %d without a member id", where(), "AB"[side], r.ErrorCode)
+					return false
+				}
+			}
+			newID[a], newID[b] = ra.MemberID, rb.MemberID
+			idsDiverged = true
+			out.classes = append(out.classes, "new-member-joins-after-failover")
+			if !compareJoin("JoinGroup(empty member id) by a new consumer", ra, rb) {
+				return false
+			}
+		}
+		return true
+	}
+	if !describe("DescribeGroups/ListGroups") {
 		return out
 	}
-	for round := 0; round < 2; round++ {
-		for _, m := range ms {
-			m := m
-			if !cmp(fmt.Sprintf("round %d Heartbeat(member=%s gen=%d)", round, m.id, curGen), func(c *GroupCoordinator) string {
-				return fmt.Sprintf("code=%d", c15Heartbeat(ctx, c, m.id, curGen))
-			}) {
-				return out
-			}
-		}
-		if round == 1 {
-			break
-		}
-		for _, m := range ms {
-			m := m
-			if !cmp(fmt.Sprintf("SyncGroup(member=%s gen=%d)", m.id, curGen), func(c *GroupCoordinator) string {
-				code, asg := c15Sync(ctx, c, m.id, curGen)
-				return fmt.Sprintf("code=%d assignment=[%s]", code, asg)
-			}) {
-				return out
-			}
-		}
-		for i, m := range ms {
-			m, i := m, i
-			if !cmp(fmt.Sprintf("OffsetCommit(member=%s gen=%d)+OffsetFetch", m.id, curGen), func(c *GroupCoordinator) string {
-				code := c15Commit(ctx, c, m.id, curGen, firstTopic, 0, int64(100+i))
-				return fmt.Sprintf("code=%d then %s", code, c15FetchOffset(ctx, c, firstTopic, 0))
-			}) {
-				return out
-			}
-		}
-		if !cmp("DescribeGroups/ListGroups after syncs", func(c *GroupCoordinator) string { return c15Describe(ctx, c) }) {
+	for _, kind := range sc.Probe {
+		if !phase(kind) {
 			return out
 		}
 	}
-	// final: every known member rejoins, leader first. While the group is preparing a
-	// rebalance the set of members that already rejoined is not part of the statement (it
-	// is not persisted), so there only generation/leader/member id are compared and B may
-	// complete the rebalance earlier than A; once that happened the comparison stops.
+	if !describe("DescribeGroups/ListGroups after the first probes") || !phase("heartbeat") {
+		return out
+	}
+	// every known member rejoins, leader first
 	order := append([]probeM(nil), ms[:len(ms)-1]...)
 	sort.SliceStable(order, func(i, j int) bool { return order[i].id == leader && order[j].id != leader })
 	for _, m := range order {
 		ra := c15Join(ctx, a, m.id, m.subs, m.sess, 30000)
 		rb := c15Join(ctx, b, m.id, m.subs, m.sess, 30000)
-		render := func(r *kmsg.JoinGroupResponse, full bool) string {
-			s := fmt.Sprintf("gen=%d leader=%q member=%q", r.Generation, r.LeaderID, r.MemberID)
-			if full {
-				var rows []string
-				for _, jm := range r.Members {
-					subs, ok := c15DecodeSubs(jm.ProtocolMetadata)
-					sort.Strings(subs)
-					rows = append(rows, fmt.Sprintf("%s%v%v", jm.MemberID, subs, ok))
-				}
-				sort.Strings(rows)
-				s += fmt.Sprintf(" code=%d members=%v", r.ErrorCode, rows)
-			}
-			return s
-		}
-		what := fmt.Sprintf("JoinGroup(member=%s) as a known member", m.id)
-		if ra.ErrorCode == protocol.REBALANCE_IN_PROGRESS && rb.ErrorCode == protocol.NONE {
-			out.classes = append(out.classes, "stat:rejoin-progress-not-persisted(B completes rebalance earlier)")
-			if render(ra, false) != render(rb, false) {
-				out.violation = fmt.Sprintf("after failover (persisted state=%s gen=%d leader=%q): %s\n  A: %s\n  B: %s", out.failState, curGen, leader, what, render(ra, false), render(rb, false))
-			}
-			return out
-		}
-		if render(ra, true) != render(rb, true) {
-			out.violation = fmt.Sprintf("after failover (persisted state=%s gen=%d leader=%q): %s\n  A: %s\n  B: %s", out.failState, curGen, leader, what, render(ra, true), render(rb, true))
+		if !compareJoin(fmt.Sprintf("JoinGroup(member=%s) as a known member", m.id), ra, rb) {
 			return out
 		}
 	}
-	cmp("DescribeGroups/ListGroups after rejoin", func(c *GroupCoordinator) string { return c15Describe(ctx, c) })
+	if !describe("DescribeGroups/ListGroups after rejoin") {
+		return out
+	}
+	if !idsDiverged {
+		phase("newjoin")
+		if out.violation == "" {
+			describe("DescribeGroups/ListGroups after a new member joined")
+		}
+	}
 	return out
 }
 
 func c15Generate(t *rapid.T) c15Script {
 	var sc c15Script
 	sc.Store = rapid.SampledFrom([]string{"inmem", "codec"}).Draw(t, "store")
+	// which kind of request reaches the new coordinator first: any order of heartbeat / sync /
+	// commit; a brand-new consumer joins either somewhere in between or after everything else
+	sc.Probe = rapid.Permutation([]string{"commit", "heartbeat", "sync"}).Draw(t, "probe-order")
+	if pos := rapid.IntRange(0, 7).Draw(t, "newjoin-position"); pos <= 3 {
+		sc.Probe = append(sc.Probe[:pos:pos], append([]string{"newjoin"}, sc.Probe[pos:]...)...)
+	}
 	sc.Topics = map[string]int32{}
 	topicPool := []string{"t1", "t2", "t3"}
 	nt := rapid.IntRange(1, 3).Draw(t, "ntopics")
@@ -645,6 +724,7 @@ func TestVF_C15_Failover(t *testing.T) {
 		}
 		st.Class(fmt.Sprintf("failover-in-%s", out.failState))
 		st.Class("store-" + sc.Store)
+		st.Class("first-request-" + sc.Probe[0])
 		for _, c := range out.classes {
 			st.Class(c)
 		}
@@ -655,7 +735,7 @@ func TestVF_C15_Failover(t *testing.T) {
 			} else {
 				st.Class(fmt.Sprintf("nt-%s-%d-members", out.failState, out.failMembers))
 			}
-			st.NonTrivial(sc.Store, sc.Topics, fmt.Sprintf("%+v", sc.Ops))
+			st.NonTrivial(sc.Store, sc.Probe, sc.Topics, fmt.Sprintf("%+v", sc.Ops))
 			st.Sample(sc)
 		}
 		if out.violation != "" {
